@@ -220,6 +220,10 @@ class C06(ApiScenario):
         case = super().gen_case(seed, tier, idx)
         rng = random.Random(f"{seed}:c06")
         case["no_final_stop"] = rng.random() < 0.5
+        if rng.random() < 0.12:
+            # start() a second time (it raises RuntimeError like any thread; it must not disturb anything else)
+            prog = case["actors"][rng.randrange(len(case["actors"]))]
+            prog.insert(rng.randrange(len(prog) + 1), ["start"])
         if rng.random() < 0.3:
             case["actors"][0].append(["stop"])  # stop() more than once
         if rng.random() < 0.2 and len(case["actors"]) > 1:
